@@ -72,3 +72,81 @@ def node_from_json(j):
         return html.force_write
     return hn.Element(hn.Tag(list(j["tag"]), dict(j["attrs"]), j["collapsible"], j["separator"]),
                       [node_from_json(c) for c in j["children"]])
+
+
+# ---------------------------------------------------------------- style mappings
+def smatch(m):
+    from mammoth import document_matchers as dm
+    if m.operator is dm._operator_equal_to:
+        return "(SEq %s)" % s(m.value)
+    if m.operator is dm._operator_starts_with:
+        return "(SPrefix %s)" % s(m.value)
+    raise TypeError("unknown string matcher operator %r" % (m.operator,))
+
+
+def level(l):
+    if not isinstance(l.level_index, str) or not isinstance(l.is_ordered, bool):
+        raise TypeError("numbering level fields %r" % (l,))
+    return "(mkLevel %s %s)" % (s(l.level_index), b(l.is_ordered))
+
+
+def matcher(m):
+    from mammoth import document_matchers as dm
+    if isinstance(m, dm.ParagraphMatcher):
+        return "(MParagraph %s %s %s)" % (opt(s, m.style_id), opt(smatch, m.style_name), opt(level, m.numbering))
+    if isinstance(m, dm.RunMatcher):
+        return "(MRun %s %s)" % (opt(s, m.style_id), opt(smatch, m.style_name))
+    if isinstance(m, dm.TableMatcher):
+        return "(MTable %s %s)" % (opt(s, m.style_id), opt(smatch, m.style_name))
+    if isinstance(m, dm.HighlightMatcher):
+        return "(MHighlight %s)" % opt(s, m.color)
+    if isinstance(m, dm.BreakMatcher):
+        return "(MBreak %s)" % s(m.break_type)
+    for cls, name in ((dm.bold, "MBold"), (dm.italic, "MItalic"), (dm.underline, "MUnderline"),
+                      (dm.strikethrough, "MStrike"), (dm.all_caps, "MAllCaps"), (dm.small_caps, "MSmallCaps"),
+                      (dm.comment_reference, "MCommentRef")):
+        if m is cls:
+            return name
+    raise TypeError("unknown matcher %r" % (m,))
+
+
+def hpath(p):
+    from mammoth import html_paths
+    if p is html_paths.ignore:
+        return "PIgnore"
+    if isinstance(p, html_paths.HtmlPath):
+        return "(PElems %s)" % lst(lambda e: tag(e.tag), p.elements)
+    raise TypeError("unknown html path %r" % (p,))
+
+
+def style(st):
+    return "(mkStyle %s %s)" % (matcher(st.document_matcher), hpath(st.html_path))
+
+
+def matcher_json(m):
+    from mammoth import document_matchers as dm
+    def sm(x):
+        return None if x is None else {"op": "eq" if x.operator is dm._operator_equal_to else "prefix", "value": x.value}
+    def lv(x):
+        return None if x is None else {"level_index": x.level_index, "is_ordered": x.is_ordered}
+    if isinstance(m, dm.ParagraphMatcher):
+        return {"kind": "paragraph", "style_id": m.style_id, "style_name": sm(m.style_name), "numbering": lv(m.numbering)}
+    if isinstance(m, (dm.RunMatcher, dm.TableMatcher)):
+        return {"kind": m.element_type, "style_id": m.style_id, "style_name": sm(m.style_name)}
+    if isinstance(m, dm.HighlightMatcher):
+        return {"kind": "highlight", "color": m.color}
+    if isinstance(m, dm.BreakMatcher):
+        return {"kind": "break", "break_type": m.break_type}
+    return {"kind": m.element_type}
+
+
+def hpath_json(p):
+    from mammoth import html_paths
+    if p is html_paths.ignore:
+        return "!"
+    return [{"tag": list(e.tag.tag_names), "attrs": dict(sorted(e.tag.attributes.items())),
+             "collapsible": e.tag.collapsible, "separator": e.tag.separator} for e in p.elements]
+
+
+def style_json(st):
+    return {"matcher": matcher_json(st.document_matcher), "path": hpath_json(st.html_path)}
